@@ -28,8 +28,9 @@ PROPS = {
                        "Value::get_response serves nothing once more than valid_for has passed; otherwise it hands the stored response to decrement_ttl with the whole seconds spent in the cache, which by the invariant "
                        "is at most every TTL -- so the TTL subtraction, which panics on underflow, cannot (the cross-function invariant the design phase could not express: it is the precondition can_age of decrement_ttl, "
                        "discharged at the call in get_response from inv()). decrement_ttl (four loops): the message is rebuilt with the same header, the same records in the same sections and order, every TTL reduced "
-                       "by exactly the amount (never increased), OPT records untouched (predicate aged). AdDo::{new, ad, dnssec_ok}: which flavour of cached answer a query may see.",
-        "not_covered": "That the entry found belongs to the same question and compatible flags (Key, the moka cache, cache_lookup_rd_do_ad / _do_ad / _ad: async code over the cache; remove_dnssec: builder with closures), "
+                       "by exactly the amount (never increased), OPT records untouched (predicate aged). AdDo::{new, ad, dnssec_ok}: which flavour of cached answer a query may see. remove_dnssec / is_dnssec (real text, four loops): what a query without the DO bit is served has no RRSIG, NSEC or NSEC3 record in any "
+                       "section, every other record in place and in order, and the AD bit only if the query had it.",
+        "not_covered": "That the entry found belongs to the same question and compatible flags (Key, the moka cache, cache_lookup_rd_do_ad / _do_ad / _ad: async code over the cache), "
                        "the clock (Instant::elapsed is arbitrary here: any time may have passed), classify_no_error, the NODATA / delegation bounds (they depend on its classification: the contract states them for "
                        "NXDOMAIN and other error codes only), get_response_impl (the request state machine). Assumed and said so in the unit: pushing a record into the rebuilt message succeeds -- that re-encoding with "
                        "StaticCompressor cannot push a message the upstream sent past 65 535 octets and trip expect(\"push failed\") is NOT proved (an observation, see DESIGN.md); the rebuilt message reads back as what "
